@@ -64,7 +64,7 @@ func init() {
 	for _, sc := range crashScenarios("quick") {
 		simScenarios[sc.Name] = sc
 	}
-	c10 := &simCheckSpec{Prop: "C10", Oracles: []string{"crash", "info", "leader", "commit", "match", "apply"},
+	c10 := &simCheckSpec{Prop: "C10", Oracles: []string{"crash", "info", "leader", "commit", "match", "apply", "alive", "view"},
 		Scenarios: crashScenarios,
 		Budget: func(tier string) time.Duration {
 			if tier == "thorough" {
